@@ -8,6 +8,50 @@ func init() {
 	vHarnesses["VerifC07Set"] = VerifC07Set
 	vHarnesses["VerifC07Merge"] = VerifC07Merge
 	vHarnesses["VerifC07Canary"] = VerifC07Canary
+	vHarnesses["VerifC07Keyed"] = VerifC07Keyed
+}
+
+// VerifC07Keyed: SetKeys("id") diffs: a member present on both sides (same id) is never removed
+// and re-added — its changes are nested hunks that replace a's value by b's —, members listed
+// under - / + exist only on that side, and no hunk is redundant.
+func VerifC07Keyed() {
+	n, m := vParam("N", 2), vParam("M", 1)
+	a, b := vKeyedArray(n), vKeyedArray(m)
+	if vKnown("hash.alias") {
+		vAssumeNoHashAlias(a, b)
+	}
+	opts := []Option{SetKeys("id")}
+	d := a.Diff(b, opts...)
+	hasID := func(arr jsonArray, id JsonNode) bool {
+		found := false
+		for _, e := range arr {
+			found = vOr(found, refEq(e.(jsonObject)["id"], id, modeList, 0))
+		}
+		return found
+	}
+	for _, h := range d {
+		vAssert(len(h.Remove)+len(h.Add) > 0, "hunk removes and adds nothing")
+		if len(h.Path) == 1 {
+			// the {} hunk: whole members
+			for _, r := range h.Remove {
+				vAssert(hasID(a, r.(jsonObject)["id"]), "removed member is not in a")
+				vAssert(!hasID(b, r.(jsonObject)["id"]), "member removed although b has a member with that identity")
+			}
+			for _, x := range h.Add {
+				vAssert(hasID(b, x.(jsonObject)["id"]), "added member is not in b")
+				vAssert(!hasID(a, x.(jsonObject)["id"]), "member added although a has a member with that identity")
+			}
+			continue
+		}
+		// a nested hunk below a keyed member
+		sk, isKeyed := h.Path[0].(PathSetKeys)
+		vAssert(isKeyed, "nested hunk of a keyed set does not start with the member's keys")
+		vAssert(hasID(a, sk["id"]) && hasID(b, sk["id"]), "nested hunk for a member that is not on both sides")
+		vAssert(!refSeqEq(h.Remove, h.Add), "nested hunk removes exactly what it adds")
+	}
+	vAssert((len(d) == 0) == refEq(a, b, modeSet, 0), "hunks exist for equal documents / none for different ones")
+	vLeaveOneOut(a, b, d, opts)
+	vCover("c07.keyed")
 }
 
 // refGet: the sub-document at a path of keys / indices (void when absent).
